@@ -35,6 +35,7 @@ type vfC16Script struct {
 }
 
 type vfC16Server struct {
+	hold    chan struct{} // when not nil: TCP replies wait until it is closed
 	mu      sync.Mutex
 	scripts map[uint32]*vfC16Script
 	udp     *net.UDPConn
@@ -190,6 +191,15 @@ func (s *vfC16Server) serveTCP() {
 				case "silence":
 					time.Sleep(2 * time.Second)
 					return
+				}
+				s.mu.Lock()
+				hold := s.hold
+				s.mu.Unlock()
+				if hold != nil {
+					select {
+					case <-hold:
+					case <-time.After(8 * time.Second):
+					}
 				}
 				c.Write(append(binary.BigEndian.AppendUint16(nil, uint16(len(reply))), reply...))
 			}
@@ -439,6 +449,123 @@ func TestVfC16TcpSideComesBack(t *testing.T) {
 		}
 		st.Case(vfkit.Fingerprint(down, gap, up), true, []string{fmt.Sprintf("gap=%v", gap)}, func() any {
 			return map[string]any{"exchanges_while_down": down, "gap_ms": gap.Milliseconds(), "exchanges_after": up}
+		})
+	})
+}
+
+// TestVfC16Burst: "whenever the UDP reply has TC set" also holds when many replies are truncated at once (a zone
+// whose answers outgrew 512 octets, a resolver that truncates everything under attack). 2-200 exchanges start
+// together on one udp upstream, every UDP reply has TC, and the TCP side holds its answers until it has seen every
+// query (or 1.5 s have passed): each exchange must have sent its query over TCP and must return the TCP reply.
+func TestVfC16Burst(t *testing.T) {
+	st := vfkit.Stats("TestVfC16Burst", "2-200 exchanges started together on one udp upstream (a fresh server and upstream object per case), every UDP reply truncated, the TCP side answering only when all queries have arrived over TCP or after 1.5 s; oracle: every exchange's query reaches the TCP side unchanged and every exchange returns the TCP reply to its own query under its own ID, never a truncated message; non-trivial = more than 8 exchanges in the TCP leg at once")
+	defer vfkit.Flush()
+	rapid.Check(t, func(t *rapid.T) {
+		srv := vfNewC16Server(t)
+		defer srv.close()
+		u, err := upstream.NewUpstream("udp://"+srv.addr, upstream.Opt{})
+		if err != nil {
+			t.Fatalf("NewUpstream: %v", err)
+		}
+		defer u.Close()
+		n := rapid.OneOf(rapid.IntRange(2, 200), rapid.SampledFrom([]int{33, 63, 64, 65, 66, 100, 127, 128, 129, 200})).Draw(t, "exchanges")
+		hold := make(chan struct{})
+		srv.mu.Lock()
+		srv.hold = hold
+		srv.mu.Unlock()
+		type ex struct {
+			tok      uint32
+			callerID uint16
+			sc       *vfC16Script
+			q, orig  []byte
+			m        *dnsmsg.Msg
+			err      error
+		}
+		exs := make([]*ex, n)
+		for i := range exs {
+			vfC16Tok++
+			e := &ex{tok: vfC16Tok, callerID: uint16(rapid.IntRange(0, 65535).Draw(t, "callerID"))}
+			e.sc = &vfC16Script{udpTC: true, udpToken: e.tok*2 + 1, tcpToken: e.tok * 2, tcp: "reply"}
+			qm := &vfkit.Msg{ID: e.callerID, Bits: vfkit.BitRD, Q: []vfkit.Question{{Name: vfkit.Name{[]byte(fmt.Sprintf("t%d", e.tok)), []byte("c16")}, Type: 1, Class: 1}}}
+			e.q, _ = vfkit.Encode(qm, vfkit.EncOpts{})
+			e.orig = append([]byte(nil), e.q...)
+			srv.mu.Lock()
+			srv.scripts[e.tok] = e.sc
+			srv.mu.Unlock()
+			exs[i] = e
+		}
+		var wg sync.WaitGroup
+		for _, e := range exs {
+			wg.Add(1)
+			go func(e *ex) {
+				defer wg.Done()
+				ctx, cancel := context.WithTimeout(context.Background(), 5*time.Second)
+				defer cancel()
+				e.m, e.err = u.ExchangeContext(ctx, e.q)
+			}(e)
+		}
+		// release the TCP answers when every query has arrived over TCP, or after 1.5 s
+		maxTogether := 0
+		for until := time.Now().Add(1500 * time.Millisecond); time.Now().Before(until); time.Sleep(2 * time.Millisecond) {
+			got := 0
+			srv.mu.Lock()
+			for _, e := range exs {
+				if len(e.sc.tcpQueries) > 0 {
+					got++
+				}
+			}
+			srv.mu.Unlock()
+			maxTogether = max(maxTogether, got)
+			if got == n {
+				break
+			}
+		}
+		close(hold)
+		wg.Wait()
+		lost := 0
+		for _, e := range exs {
+			srv.mu.Lock()
+			tcpQ := append([][]byte(nil), e.sc.tcpQueries...)
+			udpN := e.sc.udpQueries
+			srv.mu.Unlock()
+			if udpN == 0 {
+				lost++
+				continue
+			}
+			if string(e.orig) != string(e.q) {
+				t.Fatalf("query bytes modified")
+			}
+			if e.m != nil {
+				if got, ok := vfMsgToken(e.m); (ok && got == e.sc.udpToken) || e.m.Header.Truncated {
+					t.Fatalf("exchange %d of %d at once: the truncated UDP message was returned to the caller (token %d, TC=%v); %d queries had reached the TCP side when it started to answer", e.tok, n, got, e.m.Header.Truncated, maxTogether)
+				}
+			}
+			if len(tcpQ) == 0 {
+				t.Fatalf("exchange %d of %d at once: its UDP reply had TC but its query was never sent over TCP (err=%v)", e.tok, n, e.err)
+			}
+			for _, tq := range tcpQ {
+				if string(tq) != string(e.orig) {
+					t.Fatalf("the TCP leg sent a different query: %x, original %x", tq, e.orig)
+				}
+			}
+			if e.err != nil || e.m == nil {
+				t.Fatalf("exchange %d of %d at once: the TCP side answered its query but the exchange failed: %v", e.tok, n, e.err)
+			}
+			if got, ok := vfMsgToken(e.m); !ok || got != e.sc.tcpToken || e.m.Header.ID != e.callerID {
+				t.Fatalf("exchange %d of %d at once did not get the TCP reply to its own query: token %d (want %d), id %d (want %d)", e.tok, n, got, e.sc.tcpToken, e.m.Header.ID, e.callerID)
+			}
+			dnsmsg.ReleaseMsg(e.m)
+		}
+		srv.mu.Lock()
+		for _, e := range exs {
+			delete(srv.scripts, e.tok)
+		}
+		srv.mu.Unlock()
+		if lost > n/2 {
+			vfkit.Inconclusive("C16 burst: %d of %d UDP queries never reached the fake server", lost, n)
+		}
+		st.Case(vfkit.Fingerprint(n, exs[0].callerID), maxTogether > 8, []string{fmt.Sprintf("together>64=%v", maxTogether > 64)}, func() any {
+			return map[string]any{"exchanges": n, "in_the_tcp_leg_together": maxTogether, "udp_queries_lost": lost}
 		})
 	})
 }
